@@ -109,6 +109,12 @@ def lex(text: str, lenient_nl: bool = False) -> T.Tuple[T.List[Tok], T.List[str]
 
 _ESC_SIMPLE = {'\\': '\\', "'": "'", 'a': '\a', 'b': '\b', 'f': '\f', 'n': '\n', 'r': '\r', 't': '\t', 'v': '\v'}
 
+# \N{name}: "Character named name in Unicode database" (Syntax.md).  The reference does not consult a database: a
+# caller that wants such escapes read registers the (exact, upper-case) names it vouches for here, with the character
+# the Unicode standard gives them; every other name stays Unspecified.  Empty by default, so a check that does not
+# register anything sees the behaviour it always saw (C16 registers the handful of names its string family uses).
+NAMED_ESCAPES: T.Dict[str, str] = {}
+
 
 def decode_escapes(body: str) -> str:
     """Escape sequences of Syntax.md; unrecognised ones are left unchanged (backslash kept)."""
@@ -156,7 +162,12 @@ def decode_escapes(body: str) -> str:
             else:
                 raise Unspecified('malformed \\U escape')
         elif d == 'N':
-            raise Unspecified('\\N{name} escape (unicode database lookup)')
+            j = body.find('}', i + 3) if body[i + 2:i + 3] == '{' else -1
+            ch = NAMED_ESCAPES.get(body[i + 3:j]) if j > 0 else None
+            if ch is None:
+                raise Unspecified('\\N{name} escape (unicode database lookup)')
+            out.append(ch)
+            i = j + 1
         else:
             out.append('\\')
             out.append(d)
